@@ -274,7 +274,7 @@ func (di *DeclInterp) eval(d rdecl, n *idr.Node, pos position) (interface{}, err
 		}
 		res, err := fn.Call(c, args)
 		if err != nil {
-			if flag(cf, "ignore_error") {
+			if _, mistyped := err.(ArgTypeError); !mistyped && flag(cf, "ignore_error") {
 				return nil, nil
 			}
 			return nil, fail("function %v: %v", cf["name"], err)
@@ -283,6 +283,13 @@ func (di *DeclInterp) eval(d rdecl, n *idr.Node, pos position) (interface{}, err
 	}
 	return nil, fail("unknown declaration kind")
 }
+
+// ArgTypeError is what a RefFunc returns for an argument whose type its parameter does not take: the call
+// cannot be made at all, so the record fails whatever ignore_error says (ignore_error is about errors the
+// function itself returns).
+type ArgTypeError struct{ Msg string }
+
+func (e ArgTypeError) Error() string { return e.Msg }
 
 func isEmptyValue(v interface{}) bool {
 	rv := reflect.ValueOf(v)
